@@ -275,6 +275,28 @@ Definition tl_encode (nm : naming) (sch : schema) (t : ty) (v : value) : option 
 Definition tl_decode (nm : naming) (sch : schema) (t : ty) (bs : bytes) : option (value * bytes) :=
   dec nm sch tl_fuel t bs.
 
+(** Functions: a request is the 32-bit id of the function line followed by its
+    arguments (laid out like the fields of a constructor); the answer is a boxed
+    value of the result type. *)
+Definition enc_args (nm : naming) (sch : schema) (fuel : nat) (f : decl) (v : value) : option bytes :=
+  match v with
+  | VRec c fs =>
+      if String.eqb c (blbl nm f) then enc_fields nm (enc nm sch fuel) (dfields f) fs [] else None
+  | _ => None
+  end.
+Definition dec_args (nm : naming) (sch : schema) (fuel : nat) (f : decl) (bs : bytes)
+  : option (value * bytes) :=
+  opt (fs, r) <- dec_fields nm (dec nm sch fuel) (dfields f) [] bs;
+  Some (VRec (blbl nm f) fs, r).
+Definition tl_request (nm : naming) (sch : schema) (f : decl) (v : value) : option bytes :=
+  if did f <? two32 then
+    opt a <- enc_args nm sch tl_fuel f v; Some (le_bytes 4 (did f) ++ a)
+  else None.
+Definition tl_request_decode (nm : naming) (sch : schema) (f : decl) (bs : bytes)
+  : option (value * bytes) :=
+  opt (a, r) <- split_at 4 bs;
+  if le_num a =? did f then dec_args nm sch tl_fuel f r else None.
+
 (** * Well-formedness of a schema (checked on the translated schema) *)
 Fixpoint nodup_N (l : list N) : bool :=
   match l with [] => true | a :: t => negb (existsb (N.eqb a) t) && nodup_N t end.
